@@ -27,11 +27,20 @@ urgency spellings x all extra-pair spellings on single blocks; (5) longer-than-u
 name, 80-character distribution list, 200-character change line, 6 extra pairs, all of them together), alone and
 paired with every pool block in both orders; (6) input forms: the twin, long-component and pool blocks, alone and as
 two-block texts, with 0-2 leading blank lines, handed to the constructor in every documented input type (str, bytes,
-list/tuple/generator of str lines, text and binary file objects, list/generator of bytes lines) - same oracle per form.
+list/tuple/generator of str lines, text and binary file objects, list/generator of bytes lines) - same oracle per form;
+(7) routes: the same documents, three-block documents over the same blocks and the sweep documents through every other
+public way in and out: the lenient constructor, keyword / positional arguments, allow_empty_author, parse_changelog on a
+fresh and on a used object, max_blocks (all, more than all, every k < n: the first k blocks and their text), Latin-1
+bytes with encoding=, real files; bytes(), write_to_open_file, str/bytes of the blocks, copies and pickles; subscripts,
+len, the version list, the version parts and the top-block properties - all against the generator's components.
 """
 import collections
+import copy
 import io
 import itertools
+import os
+import pickle
+import tempfile
 import warnings
 
 from .. import core
@@ -52,11 +61,15 @@ RULE = ("Engine B on a grammar product: states = distinct generator prefixes (pa
         "non-trivial when they have a change line (they carry a comment and extra pairs, or a second block); input "
         "forms: one state / transition per document, one trace per (document, input form): the same text as str, bytes, "
         "list / tuple / generator of str lines (with and without newlines), io.StringIO, io.BytesIO, list / generator of "
-        "bytes lines, every form checked against the generator's components")
+        "bytes lines, every form checked against the generator's components; routes: one state / transition per "
+        "document, one trace per parse made along a route, evaluations = oracle comparisons per route (the 4 + 9 per block "
+        "of the plain oracle for every parsing route, one per formatting route, about 20 + 4 per block for the reading "
+        "routes)")
 BUDGET = {"quick": 240, "thorough": 3000}
 
 POOL_SIZE = 30
 FORM_UNITS = 6
+ROUTE_UNITS = 12
 PRISTINE_IMPORTS = ["debian.changelog"]     # what mc.zygote imports before it forks one child per case
 
 
@@ -111,6 +124,23 @@ def bounds(tier):
                        "leading blank lines = %d documents, %d parses"
                        % (len(FORMS), FORMS, TWINS + 5 + POOL_SIZE, TWINS, POOL_SIZE, (TWINS + 5 + POOL_SIZE) * 2 * 3,
                           (TWINS + 5 + POOL_SIZE) * 2 * 3 * len(FORMS)),
+        "routes": "%d documents (each of the %d input-forms blocks alone and followed by the next block, x 0..2 leading blank "
+                  "lines; one three-block document per block) and the %d sweep documents x {Changelog(text) lenient; "
+                  "file= and every other argument by keyword; all arguments positional; allow_empty_author=True; "
+                  "Changelog().parse_changelog(text) with its default (strict), strict=True, strict=False; max_blocks = n, "
+                  "10**6 (everything), every k in 0..n-1 (the first k blocks, text up to heading k+1), parse_changelog("
+                  "max_blocks=1); parse_changelog on an object that parsed another text / aborted a strict parse / parsed "
+                  "leniently with warnings / was built with new_block / parsed the same text before; Latin-1 bytes, bytes "
+                  "lines and BytesIO with encoding='latin-1' (also bytes() of the result), and the encoding given at the "
+                  "call; a real text-mode and a real binary file} - each judged by the full oracle - and on the parsed "
+                  "object {str() twice, bytes(), write_to_open_file, initial_blank_lines + str(block) / bytes(block) / "
+                  "str(c[i]), copy.copy, copy.deepcopy, pickle (the copies judged by the full oracle, and the original again "
+                  "after editing each copy)}, {c[i] for -n <= i < n, c[n], len, versions, get_versions, c[version text], "
+                  "c[Version], epoch / upstream_version / debian_revision / full_version of every block's version, "
+                  "package, get_package, version, get_version, full_version, epoch, upstream_version, debian_revision, "
+                  "debian_version, distributions, urgency, author, date of the changelog}"
+                  % (len(route_docs(comps(0))), TWINS + 5 + POOL_SIZE, sum(len(sweep_cases(n)) for n in dict.fromkeys(
+                      n for n, _t, _c in sweep_plan()))),
         "long_components": "5 blocks (package name of 64 characters; 7 distributions, 80+ characters; change line of exactly "
                            "200 characters; 6 extra pairs; all four together): alone x 0..2 leading blank lines, and paired "
                            "with each of the 30 pool blocks in both orders x separator 1..2",
@@ -140,6 +170,11 @@ def assumptions():
         "the library alike); parentheses in them need not balance; they may contain ';' (the heading regex of dpkg and of "
         "the library ends the distributions at the first ';' of the line and takes everything behind it as the key=value "
         "list; the unchanged library reads 'urgency=low (a;b)' as urgency 'low' with the comment ' (a;b)')",
+        "routes: max_blocks=k (k < n) is taken at its documented meaning - parsing stops at heading k+1, so the object holds "
+        "the first k blocks and formats to the text ahead of that heading (the separating blank lines included); the "
+        "version parts expected of block.version / Changelog.epoch etc. are the generator's split of the version text "
+        "(epoch before the first colon, revision after the last hyphen; mc/models/versyntax.parts); "
+        "other_keys_normalised() re-spells keys by design and is not compared; non-Latin-1 documents skip the Latin-1 routes",
         "seed rotates only letters/words inside components (package word, suite names, change text, author name); "
         "the classes of the six regexes see the same character classes for every seed",
         "near-duplicates: white space INSIDE the urgency comment, inside a key=value value, inside change text, inside the "
@@ -479,6 +514,8 @@ def exec_case(case):
             outs.append(o)
             ev += e
         return bad, "session: " + " | ".join(outs), ev
+    if case.get("routes"):
+        return _exec_routes(case)[:3]
     if case.get("forms"):
         # the same text in every input form.  What already fails for the str form is reported under its plain
         # signature; a form that fails differently from str gets a signature naming the form.
@@ -502,16 +539,21 @@ def exec_case(case):
 def _exec_doc(case, form="str"):
     from debian.changelog import Changelog
     text, labels = render(case)
-    nblocks = len(case["blocks"])
-    bad = []
-    ev = 1
     with warnings.catch_warnings(record=True) as w:
         warnings.simplefilter("always")
         try:
             c = Changelog(text if form == "str" else make_input(text, form), strict=True)
         except Exception as e:  # anything the parser raises on a well-formed text is a verdict
             return ([("changelog/parse/raises:%s" % type(e).__name__, "no exception", "%s: %s" % (type(e).__name__, e))],
-                    "parse raises %s" % type(e).__name__, ev)
+                    "parse raises %s" % type(e).__name__, 1)
+    return _judge(c, w, text, labels, case["blocks"])
+
+
+def _judge(c, w, text, labels, want_blocks):
+    """the oracle for one parsed object: no warning, str() == text, the blocks are the generator's components"""
+    nblocks = len(want_blocks)
+    bad = []
+    ev = 1
     ev += 1
     if w:
         bad.append(("changelog/parse/warning", "no warning", [str(x.message) for x in w]))
@@ -540,7 +582,7 @@ def _exec_doc(case, form="str"):
         bad.append(("changelog/blocks/count", nblocks, (n, len(blocks))))
         return bad, "blocks=%d (wrote %d)" % (n, nblocks), ev
     shape = []
-    for bi, (blk, b) in enumerate(zip(blocks, case["blocks"])):
+    for bi, (blk, b) in enumerate(zip(blocks, want_blocks)):
         pos = "first" if bi == 0 else "later"
         exp = _expected(b)
         for attr in ATTRS:
@@ -556,7 +598,9 @@ def _exec_doc(case, form="str"):
                 bad.append(("changelog/block/%s@%s" % (attr, pos), (bi, want), (bi, got)))
         shape.append("%dc%s%s" % (len(blk.changes()), "u" if blk.urgency_comment else "", "k%d" % len(blk.other_pairs)))
     # outcome class: what the parser made of the text (from the parsed object, not from the generator)
-    if nblocks == 1:
+    if nblocks == 0:
+        outcome = "0 blocks init=%d" % len(c.initial_blank_lines)
+    elif nblocks == 1:
         kinds = "".join("b" if l == "" else "w" if not l.strip() else "c" for l in blocks[0].changes())
         outcome = "1 block init=%d changes=[%s] %s" % (len(c.initial_blank_lines), kinds, shape[0])
     else:
@@ -566,6 +610,305 @@ def _exec_doc(case, form="str"):
     if bad:
         outcome = "VIOLATION " + outcome
     return bad, outcome, ev
+
+
+# ------------------------------------------------------------------------------------------------
+# the other ways in: the same well-formed text through every other public parsing route, and the parsed object
+# through every other public way of formatting and reading it - always against the generator's components
+
+BIG = 10 ** 6
+NPARSES = [0]
+
+
+def _parse(fn):
+    """-> (Changelog | None, warnings, exception | None)"""
+    NPARSES[0] += 1
+    with warnings.catch_warnings(record=True) as w:
+        warnings.simplefilter("always")
+        try:
+            return fn(), list(w), None
+        except Exception as e:
+            return None, list(w), e
+
+
+def _used_objects():
+    """(name, maker) of Changelog objects that have been used before the text is parsed on them"""
+    from debian.changelog import Changelog
+    other = ("\n\nother (9:9-9) oldstable; urgency=critical (c), K-1=v w\n\n  * earlier text\n\n"
+             " -- Someone Else <s@e>  Sat, 06 Jan 2024 01:02:03 +0000\n\n")
+
+    def parsed():
+        return Changelog(other + other.lstrip("\n").replace("9:9-9", "8"), strict=True)
+
+    def aborted():
+        c = Changelog()
+        try:
+            with warnings.catch_warnings():
+                warnings.simplefilter("ignore")
+                c.parse_changelog("# lead\n" + other + "junk line\n" + other, strict=True)
+        except Exception:
+            pass
+        return c
+
+    def warned():
+        with warnings.catch_warnings():
+            warnings.simplefilter("ignore")
+            return Changelog("junk\n" + other + "other (1) x; urgency=low\n  * no trailer\n")
+
+    def built():
+        c = Changelog()
+        c.new_block(package="np", version="2.0", distributions="experimental", urgency="medium", author="N <n@n>",
+                    date="Wed, 03 Jan 2024 00:00:00 +0000", changes=["", "  * nc", ""], other_pairs={"k": "v"})
+        return c
+    return [("after-another-text", parsed), ("after-aborted-strict-parse", aborted), ("after-lenient-parse-with-warnings", warned),
+            ("after-building", built)]
+
+
+def _truncated(case, k):
+    """what max_blocks=k leaves of the document: (expected text, labels, blocks)"""
+    sub = {"lead": case["lead"], "blocks": case["blocks"][:k], "seps": case["seps"][:max(k - 1, 0)]}
+    text, labels = render(sub)
+    if 0 < k < len(case["blocks"]):
+        # the blank lines ahead of heading k+1 were read (they follow block k) before parsing stopped
+        text += "\n" * case["seps"][k - 1]
+        labels = labels + ["separator"] * case["seps"][k - 1]
+    return text, labels, sub["blocks"]
+
+
+def parse_routes(case, text):
+    """-> [(route name, thunk -> Changelog, truncate-to | None)]"""
+    from debian.changelog import Changelog
+    n = len(case["blocks"])
+
+    def method(obj=None, src=None, **kw):
+        def go():
+            c = obj() if obj is not None else Changelog()
+            c.parse_changelog(text if src is None else src, **kw)
+            return c
+        return go
+    out = [
+        ("lenient-constructor", lambda: Changelog(text), None),
+        ("keyword-file", lambda: Changelog(file=text, strict=True, max_blocks=None, allow_empty_author=False, encoding="utf-8"), None),
+        ("positional", lambda: Changelog(text, None, False, True, "utf-8"), None),
+        ("allow-empty-author", lambda: Changelog(text, allow_empty_author=True, strict=True), None),
+        ("parse_changelog", method(), None),
+        ("parse_changelog-strict", method(strict=True, allow_empty_author=True), None),
+        ("parse_changelog-lenient", method(strict=False), None),
+        ("max-blocks=all", lambda: Changelog(text, max_blocks=n, strict=True), None),
+        ("max-blocks=big", lambda: Changelog(text, strict=True, max_blocks=BIG), None),
+    ]
+    for k in range(n):
+        out.append(("max-blocks=0" if k == 0 else "max-blocks=k<n", (lambda k: lambda: Changelog(text, max_blocks=k, strict=True))(k), k))
+    if n > 1:
+        out.append(("parse_changelog-max-blocks=1", method(max_blocks=1), 1))
+    for i, (name, mk) in enumerate(_used_objects()):
+        out.append(("second-parse/" + name, method(obj=mk), None))
+        # ... the second text handed over in the other input forms (each form has its own branch in the parser)
+        out.append(("second-parse-lines/" + name, method(obj=mk, src=text.splitlines(True)), None))
+        if i == 0:
+            out.append(("second-parse-stringio/" + name, method(obj=mk, src=io.StringIO(text)), None))
+            out.append(("second-parse-bytes/" + name, method(obj=mk, src=text.encode("utf-8")), None))
+            out.append(("second-parse-generator/" + name, method(obj=mk, src=(l for l in text.splitlines(True))), None))
+
+    def twice():
+        c = Changelog(text, strict=True)
+        c.parse_changelog(text)
+        return c
+    out.append(("second-parse/same-text-twice", twice, None))
+    try:
+        b = text.encode("latin-1")
+    except UnicodeEncodeError:
+        b = None
+    if b is not None:
+        lines = text.split("\n")[:-1]
+        out += [
+            ("latin-1-bytes", lambda: Changelog(b, strict=True, encoding="latin-1"), None),
+            ("latin-1-bytes-lines", lambda: Changelog([(l + "\n").encode("latin-1") for l in lines], strict=True, encoding="latin-1"), None),
+            ("latin-1-bytesio", lambda: Changelog(io.BytesIO(b), strict=True, encoding="latin-1"), None),
+            ("latin-1-at-the-call", method(obj=lambda: Changelog(encoding="ascii"), src=b, encoding="latin-1"), None),
+        ]
+    return out
+
+
+def _with_files(text, fn):
+    d = tempfile.mkdtemp(prefix="c04-", dir="/dev/shm" if os.path.isdir("/dev/shm") else None)
+    try:
+        path = os.path.join(d, "changelog")
+        with open(path, "w", encoding="utf-8", newline="\n") as f:
+            f.write(text)
+        return fn(path)
+    finally:
+        for name in os.listdir(d):
+            os.unlink(os.path.join(d, name))
+        os.rmdir(d)
+
+
+def _value(fn):
+    try:
+        return fn()
+    except Exception as e:
+        return "<raises %s: %s>" % (type(e).__name__, e)
+
+
+def format_routes(c, enc="utf-8"):
+    """-> [(route, thunk)] every public way of getting the text (as str) out of a parsed object"""
+    def via_file():
+        f = io.StringIO()
+        c.write_to_open_file(f)
+        return f.getvalue()
+
+    def lead():
+        return "".join(l + "\n" for l in c.initial_blank_lines)
+    return [("str-twice", lambda: (str(c), str(c))[1]),
+            ("bytes", lambda: bytes(c).decode(enc)),
+            ("write_to_open_file", via_file),
+            ("str-of-blocks", lambda: lead() + "".join(str(b) for b in c)),
+            ("bytes-of-blocks", lambda: lead() + b"".join(bytes(b) for b in c).decode(enc)),
+            ("str-of-indexed-blocks", lambda: lead() + "".join(str(c[i]) for i in range(len(c)))),
+            ("copy", lambda: str(copy.copy(c))),
+            ("deepcopy", lambda: str(copy.deepcopy(c))),
+            ("pickle", lambda: str(pickle.loads(pickle.dumps(c)))),
+            ("str-after-the-others", lambda: str(c))]
+
+
+def _which(it, got):
+    """a block named by its position (object addresses differ from run to run)"""
+    if isinstance(got, str):
+        return got
+    for i, b in enumerate(it):
+        if b is got:
+            return "block %d" % i
+    return "a %s that is not a block of the changelog" % type(got).__name__
+
+
+def read_routes(c, want_blocks):
+    """-> [(sig, expected, observed)]: subscripts, len, the version list and the top-block properties against the
+    generator's components"""
+    from ..models import versyntax
+    bad = []
+    n = len(want_blocks)
+    it = list(c)
+    if len(it) != n:
+        return []            # reported by the plain oracle
+    for i in range(-n, n):
+        got = _value(lambda: c[i])
+        if got is not it[i]:
+            bad.append(("changelog/via=index/block", "block %d" % (i % n), _which(it, got)))
+            break
+    got = _value(lambda: c[n])
+    if not (isinstance(got, str) and got.startswith("<raises IndexError")):
+        bad.append(("changelog/via=index/past-the-end", "IndexError", _which(it, got)))
+    vers = [b[1] for b in want_blocks]
+    for name, fn in (("versions", lambda: [str(v) for v in c.versions]), ("get_versions", lambda: [str(v) for v in c.get_versions()])):
+        got = _value(fn)
+        if got != vers:
+            bad.append(("changelog/via=%s" % name, vers, got))
+    for i, b in enumerate(want_blocks):
+        first = vers.index(b[1])
+        for name, key in (("version-text", lambda: b[1]), ("version-object", lambda: it[i].version)):
+            got = _value(lambda: c[key()])
+            if got is not it[first]:
+                bad.append(("changelog/via=index/%s" % name, "block %d (the first with version %s)" % (first, b[1]), _which(it, got)))
+        e, u, r = versyntax.parts(b[1])
+        got = _value(lambda: (it[i].version.epoch, it[i].version.upstream_version, it[i].version.debian_revision,
+                              it[i].version.full_version))
+        if got != (e, u, r, b[1]):
+            bad.append(("changelog/via=block-version-parts@%s" % ("first" if i == 0 else "later"), (e, u, r, b[1]), got))
+    if n:
+        b = want_blocks[0]
+        e, u, r = versyntax.parts(b[1])
+        for name, fn, want in (
+                ("package", lambda: c.package, b[0]), ("get_package", lambda: c.get_package(), b[0]),
+                ("version", lambda: str(c.version), b[1]), ("get_version", lambda: str(c.get_version()), b[1]),
+                ("full_version", lambda: c.full_version, b[1]), ("epoch", lambda: c.epoch, e),
+                ("upstream_version", lambda: c.upstream_version, u), ("debian_revision", lambda: c.debian_revision, r),
+                ("debian_version", lambda: c.debian_version, r), ("distributions", lambda: c.distributions, b[2]),
+                ("urgency", lambda: c.urgency, b[3]), ("author", lambda: c.author, b[7]), ("date", lambda: c.date, b[8])):
+            got = _value(fn)
+            if got != want:
+                bad.append(("changelog/via=property/%s" % name, want, got))
+    return bad
+
+
+def _exec_routes(case):
+    """-> (violations, outcome, evaluations, parses)"""
+    from debian.changelog import Changelog
+    n0 = NPARSES[0]
+    text, labels = render(case)
+    bad, outcome, ev = _exec_doc(case)
+    if bad:
+        return bad, outcome, ev, 1          # fails on the plain route already: reported under its plain signature
+    routes = 0
+    for name, thunk, trunc in parse_routes(case, text):
+        c, w, e = _parse(thunk)
+        routes += 1
+        if e is not None:
+            bad.append(("changelog/parse/raises:%s+via=%s" % (type(e).__name__, name), "no exception",
+                        "%s: %s: %s" % (name, type(e).__name__, e)))
+            continue
+        t, lb, wb = (text, labels, case["blocks"]) if trunc is None else _truncated(case, trunc)
+        if name.startswith("latin-1") and name != "latin-1-at-the-call":     # bytes() uses the encoding of the object
+            got = _value(lambda: bytes(c))
+            ev += 1
+            if got != t.encode("latin-1"):
+                bad.append(("changelog/bytes+via=%s" % name, t.encode("latin-1"), got))
+        b2, _o, e2 = _judge(c, w, t, lb, wb)
+        ev += e2
+        bad += [("%s+via=%s" % (sig, name), exp, "%s: %r" % (name, obs)) for sig, exp, obs in b2]
+
+    def from_files(path):
+        out = []
+        for name, mode, kw in (("text-file", "r", {"encoding": "utf-8"}), ("binary-file", "rb", {})):
+            with open(path, mode, **kw) as f:
+                out.append((name,) + _parse(lambda: Changelog(f, strict=True)))
+        return out
+    for name, c, w, e in _with_files(text, from_files):
+        routes += 1
+        if e is not None:
+            bad.append(("changelog/parse/raises:%s+via=%s" % (type(e).__name__, name), "no exception", "%s: %s" % (type(e).__name__, e)))
+            continue
+        b2, _o, e2 = _judge(c, w, text, labels, case["blocks"])
+        ev += e2
+        bad += [("%s+via=%s" % (sig, name), exp, "%s: %r" % (name, obs)) for sig, exp, obs in b2]
+    c, w, e = _parse(lambda: Changelog(text, strict=True))
+    for name, fn in format_routes(c):
+        got = _value(fn)
+        routes += 1
+        ev += 1
+        if got != text:
+            bad.append(("changelog/via=%s/text" % name, text, got))
+    # a deep copy is independent of the original
+    for name, mk in (("deepcopy", lambda: copy.deepcopy(c)), ("pickle", lambda: pickle.loads(pickle.dumps(c)))):
+        c2 = mk()
+        b2, _o, e2 = _judge(c2, [], text, labels, case["blocks"])
+        ev += e2
+        bad += [("%s+via=%s" % (sig, name), exp, "%s: %r" % (name, obs)) for sig, exp, obs in b2]
+        for blk in c2:
+            blk.add_change("  * only in the copy")
+            blk.package = "copy"
+            blk.other_pairs["only"] = "copy"
+        c2.initial_blank_lines.append("")
+        b2, _o, e2 = _judge(c, [], text, labels, case["blocks"])
+        ev += e2
+        bad += [("%s+via=original-after-editing-its-%s" % (sig, name), exp, obs) for sig, exp, obs in b2]
+    b2 = read_routes(c, case["blocks"])
+    ev += 20 + 4 * len(case["blocks"])
+    routes += 20
+    bad += b2
+    return bad, "routes: %d block(s), %d routes agree" % (len(case["blocks"]), routes) if not bad else "routes: VIOLATION", ev, NPARSES[0] - n0
+
+
+def route_docs(C):
+    """documents of the routes family: the documents of the input-forms family and three-block documents over the same
+    blocks"""
+    B = form_blocks(C)
+    out = []
+    for i in range(len(B)):
+        for lead in range(3):
+            out.append(_doc(lead, [B[i]], []))
+            out.append(_doc(lead, [B[i], B[(i + 1) % len(B)]], [1 + i % 2]))
+        out.append(_doc(i % 3, [B[i], B[(i + 7) % len(B)], B[(i + 1) % len(B)]], [1 + i % 2, 2 - i % 2]))
+    return out
 
 
 def nontrivial(case):
@@ -616,6 +959,8 @@ def units(tier, seed):
     out += [("spelling", lead) for lead in range(3)]
     out += [("long", i) for i in range(5)]
     out += [("forms", g) for g in range(FORM_UNITS)]
+    out += [("routes", g) for g in range(ROUTE_UNITS)]
+    out += [("routes-sweep", name) for name in dict.fromkeys(name for name, _t, _c in sweep_plan())]
     for lead in range(3):
         for p in range(3):
             for v in range(3):
@@ -658,6 +1003,10 @@ def unit_cost(u, tier):
         return 3 + 2 * 2 * 2 * POOL_SIZE
     if u[0] == "forms":
         return 2 * 3 * 10 * ((TWINS + 5 + POOL_SIZE) // FORM_UNITS)
+    if u[0] == "routes":
+        return 7 * 40 * ((TWINS + 5 + POOL_SIZE) // ROUTE_UNITS)
+    if u[0] == "routes-sweep":
+        return 130 * 35
     if u[0] == "single":
         n = sum(6 ** L for L in range(_maxlen(tier) + 1))
         return 9 * n * len(_author_dates(tier))
@@ -679,8 +1028,10 @@ def _rank(case):
 
 def _do(part, case, tag=""):
     rank = _rank(case)
+    n0 = NPARSES[0]
     bad, outcome, ev = exec_case(case)
-    part.traces += len(case["session"]) if "session" in case else len(FORMS) if case.get("forms") else 1
+    part.traces += (len(case["session"]) if "session" in case else len(FORMS) if case.get("forms") else
+                    1 + NPARSES[0] - n0 if case.get("routes") else 1)
     part.evaluations += ev
     part.outcomes[tag + outcome] += 1
     if nontrivial(case):
@@ -826,6 +1177,23 @@ def run_unit(u, tier, seed):
     C = comps(seed)
     if u[0].startswith("twin") or u[0] in ("spelling", "long", "forms"):
         return _run_extra_unit(part, u, C)
+    if u[0] in ("routes", "routes-sweep"):
+        if u[0] == "routes":
+            D = route_docs(C)
+            per = len(D) // ROUTE_UNITS
+            cases = D[per * u[1]: per * (u[1] + 1)]
+            part.max_depth = 2 + 3 * 7 + 4
+        else:
+            cases = sweep_cases(u[1])
+            part.max_depth = 4
+        for case in cases:
+            case = dict(case, routes=1)
+            part.states += 1
+            part.transitions += 1
+            _do(part, case, "")
+        part.extra["(document, route) evaluations"] += part.traces
+        part.sample(case)
+        return part
     if u[0] == "single":
         _, lead, p, v, d = u
         # generator prefixes above the unit level are attributed to the first unit below them
